@@ -393,7 +393,7 @@ def run(w, rep, tier):
     rep.rule("C06.consumers", "each call site of a series-table entry: squared-table entries are even functions of x and are not given a norm; plain-table entries are not given a squared quantity")
     rep.rule("C06.convert", "sympy_to_casadi, which carries both branches of every table entry into CasADi, converts numbers, powers, sums, products and functions faithfully (the C19.leaf / fold / func obligations)")
     rep.rule("C06.exact", "the closed-form branch of every consumer is the exact function: exp satisfies the exponential ODE, log has the principal closed form, the Jacobians satisfy dexp and J J^-1 = I, the mixed exponential integrates the strapdown equations (obligations of C02 / C03 / C05 / C08 evaluated here)")
-    rep.rule("C06.identity", "constant propagation of the identity element / zero vector through exp, log, Ad, Jacobians and conversions: no selected sqrt(0), acos/asin(+-1), division by 0 or atan2(0,0) (each makes the value or its automatic derivative non-finite there)")
+    rep.rule("C06.identity", "constant propagation of the identity element / zero vector through exp, log, Ad, Jacobians and conversions: no selected sqrt(0), acos/asin(+-1), division by 0 or atan2(0,0) (each makes the value or its automatic derivative non-finite there); series atoms at argument 0 take the limit of their table formula; the quaternion logs feed acos a quotient bounded by construction on every selection")
     check_table(w, rep)
     check_singularities(w, rep, tier)
     check_acos_domain(w, rep, "C06.identity")
